@@ -743,6 +743,24 @@ func (e *evalEnv) expr(x ast.Expr) Val {
 		for _, a := range x.Args {
 			args = append(args, e.expr(a))
 		}
+		if id, ok := ast.Unparen(x.Fun).(*ast.Ident); ok && len(args) > 0 {
+			if b, ok := e.f.Info.Uses[id].(*types.Builtin); ok && (b.Name() == "min" || b.Name() == "max") {
+				best, ok := args[0].(*big.Int)
+				for _, a := range args[1:] {
+					n, ok2 := a.(*big.Int)
+					if !ok || !ok2 {
+						undecided("call %s of non-integers", b.Name())
+					}
+					if c := n.Cmp(best); b.Name() == "min" && c < 0 || b.Name() == "max" && c > 0 {
+						best = n
+					}
+				}
+				if !ok {
+					undecided("call %s of non-integers", b.Name())
+				}
+				return best
+			}
+		}
 		if e.ext != nil {
 			var recv Val
 			if se, ok := ast.Unparen(x.Fun).(*ast.SelectorExpr); ok && e.f.Info.Selections[se] != nil {
